@@ -178,13 +178,12 @@ def fam_seq1d(g, t, W):
             g.rd("seq1d", t, (N,), [S], ctx, RS_FULL | (M_ENC if enc else 0), 0.02 if ctx == "shape" else 0.12)
     # fixed destinations: the route depends on the destination extent E (mod W) and the step, not on N
     N = 2 * W + 3
-    if g.full:
-        Es = list(range(1, N + 1))
-        ctxs = ["ctor", "cctor", "ctorx", "fassign", "fadd", "fexpr"]
-    else:
-        Es = sorted(x for x in {1, 2, 3, W - 1, W, W + 1, 2 * W - 1, 2 * W, 2 * W + 1, 2 * W + 3} if x >= 1)
-        ctxs = ["ctor", "fadd", "ctorx"]
+    boundary = sorted(x for x in {1, 2, 3, W - 1, W, W + 1, 2 * W - 1, 2 * W, 2 * W + 1, 2 * W + 3} if x >= 1)
+    Es = list(range(1, N + 1)) if g.full else boundary
     for E in Es:
+        ctxs = ["ctor", "fadd", "ctorx"]
+        if g.full:
+            ctxs += ["cctor"] + (["fassign", "fexpr"] if E in boundary else [])
         for ctx in ctxs:
             g.rd("seq1d.fixed", t, (N,), [SE(E)], ctx, RS_FULL | (M_ENC if ctx == "ctor" else 0), 0.05)
 
@@ -194,7 +193,7 @@ def _shapes_2d(W, full):
         return [(3, 5), (2, W + 1), (4, W + 3), (3, 2 * W + 1)]
     Ns = list(range(1, W + 4)) + [2 * W, 2 * W + 1]
     out = [(1 + (N % 5), N) for N in Ns]
-    out += [(M, W + 1) for M in (1, 2, 3, 4, 5)] + [(5, W + 3), (5, 2 * W + 1), (3, 5)]
+    out += [(M, W + 1) for M in (1, 5)] + [(5, W + 3), (5, 2 * W + 1), (3, 5)]
     seen, res = set(), []
     for s in out:
         if s not in seen:
@@ -213,7 +212,7 @@ def fam_seq2d(g, t, W):
     # fixed destinations (2-D specialised constructor: eval(i,j) row loops)
     sh = (4, W + 3)
     if g.full:
-        pairs = [(e0, e1) for e0 in (1, 2, 3, 4) for e1 in range(1, W + 4)]
+        pairs = [(e0, e1) for e0 in (1, 4) for e1 in range(1, W + 4)] + [(e0, e1) for e0 in (2, 3) for e1 in (1, W, W + 1)]
         ctxs = ["ctor", "cctor", "ctorx", "fadd"]
     else:
         pairs = [(e0, e1) for e0 in (1, 3) for e1 in sorted(x for x in {1, W - 1, W, W + 1, W + 3} if x >= 1)]
@@ -272,9 +271,10 @@ def _encodings(N, f, l, s):
 
 def fam_fseq1d(g, t, W):
     if g.full:
-        Ns = list(range(1, 10)) if t in ("f64", "i32") else list(range(1, 7))
+        Ns = list(range(1, 10)) if t in ("f64", "i32") else list(range(1, 6))
     else:
         Ns = [1, 2, 3, 4, 5] if t == "f64" else [3]
+    relative = t == "f64" or not g.full      # the last-relative / both-relative spellings resolve to the same view class: one type suffices
     extra_thin = sorted({W + 1, 2 * W + 1} - set(Ns)) if W > 1 else []
     main_ctx = ["ctor", "fadd", "ctorx", "vassign", "sum", "eval", "cctor", "shape"]
     for N in Ns + extra_thin:
@@ -284,7 +284,7 @@ def fam_fseq1d(g, t, W):
                 if lab == "plain":
                     ctxs = main_ctx if N in Ns else main_ctx[:4]
                     g.rdm("fseq1d", t, (N,), [F(Fv, Lv, Sv)], ctxs, 0, 0.04 * len(ctxs))
-                else:
+                elif relative:
                     g.rdm("fseq1d", t, (N,), [F(Fv, Lv, Sv)], ["shape", "ctor"], 0, 0.03)
 
 
@@ -294,7 +294,7 @@ def fam_fseq2d(g, t, W):
         prod35 = [(a, b) for a in fullq(3) for b in fullq(5)]
         if t == "f64":
             todo.append(((3, 5), prod35, ["ctor", "fadd", "vassign", "sum", "ctorx"]))
-        else:
+        elif t == "i32":
             todo.append(((3, 5), prod35, ["ctor"]))
         todo.append(((4, 2 * W + 1), [(a, b) for a in thin(4) for b in wlist(2 * W + 1, W)], ["ctor", "fadd", "vassign"]))
     else:
@@ -317,9 +317,10 @@ def fam_fseqnd(g, t, W):
     last = wlist(2 * W + 1, W)[:8]
     if g.full:
         fam = [(a, b, c) for a in thin(2) for b in thin(3) for c in last]
-        if t not in ("f64",):
-            fam = fam[::2]
         ctxs = ["ctor", "fadd", "vassign"]
+        if t not in ("f64",):
+            fam = fam[::3]
+            ctxs = ["ctor", "vassign"]
     else:
         fam = [(a, b, c) for a in thin(2)[:2] for b in thin(3)[:3] for c in last]
         if t != "f64":
@@ -458,11 +459,11 @@ def bounds(tier):
         "six ISAs + C++17 on A5 + ASan/UBSan (-O1) on A2 (the two variants run the quick box plus rank 4-5 dynamic views, f64/f32/i32 resp. f64/i32) "
         "+ A2 with -DFASTOR_DISABLE_SPECIALISED_CTR (construction contexts of the quick box). "
         "scalar indexing adds (1),(2W+3),(4,W+1),(3,2,W+1),(1,2,1,3,1) and long long indices. seq rank 1: every N <= 2W+3 x FULL x three encodings, "
-        "8 contexts; fixed destinations: parent 2W+3, every E <= 2W+3 x 6 contexts. seq rank 2: one M in 1..5 for every N in 1..W+3 u {2W,2W+1}, "
-        "all M <= 5 at N = W+1, (5,W+3),(5,2W+1): full product FULLQ x FULLQ, 8 contexts; fixed destinations: parent (4,W+3), E0 <= 4 x "
-        "E1 <= W+3 x 4 contexts. seq ranks 3-5: (2,3,W+1),(2,2,2W+1),(3,2,W),(2,3,2,W+1),(2,2,3,2,W+1): THIN on all axes but the last, FULLQ on "
-        "the last. fseq rank 1: every (F,L,S) of FULLQ for N <= 9 (f64,i32) / N <= 6 (f32,i64) in 7 contexts + two relative spellings; fseq "
-        "rank 2: full product FULLQ x FULLQ on (3,5) (5 contexts f64, construct for the other types), THIN x W-boundary family on (4,W+1); "
-        "fseq ranks 3-5: generated families on (2,3,W+1),(2,3,2,W+1),(2,2,3,2,W+1); iseq, mixed (ranks 2-5), flast, seq(last) on rank 1, bare "
+        "8 contexts; fixed destinations: parent 2W+3, every E <= 2W+3 x 4 contexts (6 at the W-boundary extents). seq rank 2: one M in 1..5 for every N in 1..W+3 u {2W,2W+1}, "
+        "M in {1,5} at N = W+1, (5,W+3),(5,2W+1): full product FULLQ x FULLQ, 8 contexts; fixed destinations: parent (4,W+3), E0 in {1,4} x "
+        "E1 <= W+3 and E0 in {2,3} x E1 in {1,W,W+1}, 4 contexts. seq ranks 3-5: (2,3,W+1),(2,2,2W+1),(3,2,W),(2,3,2,W+1),(2,2,3,2,W+1): THIN on all axes but the last, FULLQ on "
+        "the last. fseq rank 1: every (F,L,S) of FULLQ for N <= 9 (f64,i32) / N <= 5 (f32,i64) in 8 contexts + the two relative spellings (f64); fseq "
+        "rank 2: full product FULLQ x FULLQ on (3,5) (5 contexts f64, construct only i32), THIN x W-boundary family on (4,2W+1); "
+        "fseq ranks 3-5: generated families on (2,3,2W+1),(2,3,2,2W+1),(2,2,3,2,2W+1); iseq, mixed (ranks 2-5), flast, seq(last) on rank 1, bare "
         "negative integers (not judged). Shrunk w.r.t. DESIGN.md: rank-2 shapes thinned on M; (4,2W+1) fseq product thinned to THIN x W-boundary family; fseq rank 1 for "
-        "f32/i64 limited to N <= 6; diagonal views, bool/complex element types not run; FASTOR_DISABLE_SPECIALISED_CTR on A2 only.")
+        "f32/i64 limited to N <= 5; diagonal views, bool/complex element types not run; FASTOR_DISABLE_SPECIALISED_CTR on A2 only.")
